@@ -158,6 +158,16 @@ theorem deleteGroup_run (info : KindInfo) (kind : String) (desiredNames : List S
         · intro t
           rw [request_defOf]; exact hdefs t
 
+/-- what an accepted create stores -/
+theorem request_create_post (s : State) (t : Target) (body : J) (d : ResDef) (hd : s.defOf t = some d)
+    (hok : (s.request .create t body .null).1.ok = true) :
+    (s.request .create t body .null).2.find t = some (created d t body s.fresh false) := by
+  have hf := request_find s .create t body .null t
+  rw [hf, if_pos rfl]
+  unfold State.request at hok ⊢
+  simp only [hd, handle] at hok ⊢
+  exact (create_ok d t _ body _ hok).2
+
 /-- a create of a well-formed body under a free name of a known resource is accepted -/
 theorem create_free (s : State) (t : Target) (body : J) (d : ResDef) (hd : s.defOf t = some d) (hf : s.find t = none)
     (hb : body.isNull = false) (hn : (t.name == "") = false) (hc : nControllerRefs body ≤ 1) :
@@ -177,8 +187,8 @@ theorem createGroup_run (mks sys : List String) (children : List ChildRes) (info
       (desired.map (fun nd => tgtOf info nd.2)).Nodup →
       let r := Prog.runT (W hook) (updateGroup mks sys children none info kind parentRef [] desired memo) s
       r.1.1 = [] ∧
-      (∀ nd ∈ desired, ∃ o, r.2.find (tgtOf info nd.2) = some o ∧
-          lookup "ownerReferences" (metaOf o) = lookup "ownerReferences" (metaOf (createBody parentRef nd.2))) ∧
+      (∀ nd ∈ desired, ∃ d f, s.defOf (tgtOf info nd.2) = some d ∧
+          r.2.find (tgtOf info nd.2) = some (created d (tgtOf info nd.2) (createBody parentRef nd.2) f false)) ∧
       (∀ t, (∀ nd ∈ desired, tgtOf info nd.2 ≠ t) → r.2.find t = s.find t) ∧
       (∀ t, r.2.defOf t = s.defOf t) := by
   intro desired
@@ -215,7 +225,7 @@ theorem createGroup_run (mks sys : List String) (children : List ChildRes) (info
     obtain ⟨hb, hn, hc⟩ := hwf (name, des) (List.mem_cons_self ..)
     have hn' : ((tgtOf info des).name == "") = false := by simpa [tgtOf, targetOf] using hn
     have hok := create_free s1 (tgtOf info des) (createBody parentRef des) d hd1 hfind1 hb hn' hc
-    obtain ⟨_, o, ho, hrefs⟩ := request_create_ok s1 (tgtOf info des) (createBody parentRef des) .null hok
+    have ho := request_create_post s1 (tgtOf info des) (createBody parentRef des) d hd1 hok
     simp only [List.lookup, bind, Prog.runT_bind, api, Prog.request, Prog.runT, W, worldStep]
     have hresp : ((s1.request .create (tgtOf info des) (createBody parentRef des) .null).1.toResp) =
         .obj (((s1.request .create (tgtOf info des) (createBody parentRef des) .null).1.resp).getD .null) := by
@@ -226,9 +236,9 @@ theorem createGroup_run (mks sys : List String) (children : List ChildRes) (info
     refine ⟨trivial, ?_, ?_, ?_⟩
     · intro nd hnd'
       rcases List.mem_cons.mp hnd' with rfl | hnd'
-      · exact ⟨o, ho, hrefs⟩
-      · obtain ⟨o', ho', hr'⟩ := hmade nd hnd'
-        refine ⟨o', ?_, hr'⟩
+      · exact ⟨d, s1.fresh, hd, ho⟩
+      · obtain ⟨d', f', hd', ho'⟩ := hmade nd hnd'
+        refine ⟨d', f', hd', ?_⟩
         rw [hfind2, if_neg (hhead nd hnd')]
         exact ho'
     · intro t ht
